@@ -133,6 +133,16 @@ func WithGaps(t *rapid.T, b Bars) Bars {
 	return c
 }
 
+// GenBarsAny is GenBars for the properties that quantify over ALL series (termination, counts, no
+// look-ahead): in 1/8 of the draws a few values are missing.
+func GenBarsAny(t *rapid.T, n int) Bars {
+	b := GenBars(t, n)
+	if rapid.IntRange(0, 7).Draw(t, "with_gaps") == 0 {
+		b = WithGaps(t, b)
+	}
+	return b
+}
+
 // HasGaps reports whether any value is NaN.
 func (b Bars) HasGaps() bool { return strings.HasSuffix(b.Class, "+gaps") }
 
